@@ -22,6 +22,8 @@ inductive CacheId where
   | sort    -- ProtocolBase._sortcache   (sort_fields)
   | memo    -- memoize.memo              (memoize / memoize_id / memoize_ignore_none …)
   | cdict   -- cdict instances           (handler tables)
+  | bind    -- a protocol instance that is bound to the application by its first user
+            -- (`ctx.out_protocol = shared_instance` → `set_app` when `.app is None`)
   deriving DecidableEq, Repr
 
 /-- a cell of one of the caches.  `pa`: the entry's final value differs from what is stored first
@@ -71,6 +73,7 @@ inductive Obs where
   | val (k : Key) (v : Val)       -- the value a cache lookup produced
   | err (e : Option Nat)          -- the error text: `some a` = the error of payload `a`, `none` = "None"
   | scr (x : Option Nat)          -- what was read back from a parked location
+  | exc                           -- an internal error: binding an already bound protocol instance raised
   deriving DecidableEq, Repr
 
 structure RLocal where
@@ -93,6 +96,9 @@ structure RFacts where
   /-- cell `c` of the "per-request" context is in fact one object shared by all requests
       (a mutable attribute hoisted to a context *class*) -/
   ctxShared : Nat → Bool := fun _ => false
+  /-- `set_app` on an instance that is already bound (to the same application) raises: the loser of
+      the check-then-act race in `set_out_protocol` fails -/
+  rebindRaises : Bool := false
 
 structure RState where
   table : Key → Option Val := fun _ => none
@@ -127,7 +133,10 @@ def rstep (F : RFacts) (s : RState) (i : Nat) : RState :=
       match s.table k with
       | some v => s.setLoc i { l with todo := rest, obs := l.obs ++ [.val k v], hits := l.hits ++ [true] }
       | none => s.setLoc i { l with todo := rest, obs := l.obs ++ [.val k .full], hits := l.hits ++ [false] }
-    | .publish k => (s.setTable k (published F k)).setLoc i { l with todo := rest }
+    | .publish k =>
+      if k.c = .bind ∧ F.rebindRaises = true ∧ (s.table k).isSome then
+        s.setLoc i { l with todo := rest, obs := l.obs ++ [.exc] }
+      else (s.setTable k (published F k)).setLoc i { l with todo := rest }
     | .complete k => (s.setTable k .full).setLoc i { l with todo := rest }
     | .validate =>
       { s with errlog := payloadError l }.setLoc i { l with todo := rest, err := payloadError l }
@@ -189,7 +198,7 @@ def ROp.isPark : ROp → Bool
     its validation.  Parking per-request data on a shared object is never safe. -/
 def ROp.Safe (F : RFacts) : ROp → Prop
   | .probe _ => True
-  | .publish k => published F k = .full
+  | .publish k => published F k = .full ∧ (k.c = .bind → F.rebindRaises = false)
   | .complete _ => True
   | .validate => True
   | .readErr => F.errRead = .underLock
